@@ -1,15 +1,21 @@
 /-
   Line-protocol driver for C16.  Ops:
     {"op":"gen","schema":S,"tm":..,"sv":..}   -> model `gen`, its pruned imports, WF / trigger predicates,
-                                                  and the executable instance of `schema_roundtrip`
+                                                  the executable instance of `schema_roundtrip`, and
+                                                  Spec/GqlCollect `typeMapOrder S` (keys of schema.type_map)
     {"op":"eval","module":M,"sv":..}          -> Spec `evalSchemaModule`
     {"op":"dispatch","path":..}               -> model of the target-file dispatch
+    {"op":"repr","v":PV}                      -> Model/PyRepr `pyRepr` (the text of `repr(v)`), and `finitePV`
+    {"op":"read","text":..}                   -> Spec/PyLiteral `readCExpr` (the value of a literal text / a bare name)
   JSON shapes are documented in harness/c16.py (`schema_to_ir`, `module_to_ir`).  Driver glue: trusted base.
 -/
 import AriadneModel.Driver.Wire
 import AriadneModel.Model.SchemaGen
 import AriadneModel.Spec.PySchemaEval
 import AriadneModel.Model.SchemaWF
+import AriadneModel.Model.PyRepr
+import AriadneModel.Spec.PyLiteral
+import AriadneModel.Spec.GqlCollect
 
 open Lean (Json)
 open Ariadne Ariadne.Schema Ariadne.SchemaGen Ariadne.PySchemaEval
@@ -393,7 +399,13 @@ def handle (j : Json) : Except String Json := do
     pure (Json.mkObj [("module", encModule m), ("pruned", encImports (prunedImports m)),
       ("wf", .bool (SchemaWF.wf S)), ("trigOneOf", .bool (SchemaWF.trigOneOf S)),
       ("trigShadow", .bool (SchemaWF.trigShadow tm)), ("roundtrip", .str rt),
-      ("final_sv", .str (reprStr (finalBinding m sv))), ("final_tm", .str (reprStr (finalBinding m tm)))])
+      ("final_sv", .str (reprStr (finalBinding m sv))), ("final_tm", .str (reprStr (finalBinding m tm))),
+      ("typeMapOrder", strs (GqlCollect.typeMapOrder S)),
+      ("typeMapOrderFrom", match j.getObjVal? "types_arg" with
+        | .ok a => (match getStrs a with
+          | .ok ts => strs (GqlCollect.typeMapOrderFrom ts S)
+          | .error _ => .null)
+        | .error _ => .null)])
   | "eval" =>
     let m ← decModule (← j.getObjVal? "module")
     let sv ← Wire.fieldStr j "sv"
@@ -405,6 +417,14 @@ def handle (j : Json) : Except String Json := do
       | .ok .sdl => Json.mkObj [("ok", "sdl"), ("format", .str (targetFileFormat p))]
       | .error .missingFileType => Json.mkObj [("err", "missing")]
       | .error .invalidFileType => Json.mkObj [("err", "invalid")])
+  | "repr" =>
+    let v ← decPV (← j.getObjVal? "v")
+    pure (Json.mkObj [("text", .str (PyRepr.pyRepr v)), ("finite", .bool (SchemaWF.finitePV v))])
+  | "read" =>
+    let t ← Wire.fieldStr j "text"
+    pure (match PyLiteral.readCExpr t.toList with
+      | some c => Json.mkObj [("ok", encCE c)]
+      | none => Json.mkObj [("none", .bool true)])
   | _ => throw s!"unknown op {op}"
 
 end C16Drv
